@@ -134,6 +134,44 @@ def unit(job, variant, pi, seed, length):
                                                        "method": rec.get("method"), "kind": p["kind"], "job": job,
                                                        "action": rec["action"], "detail": p, "forked_from_clock": pl.clock,
                                                        "plan": [command_text(x) for x in cmds]})
+    # time-advance forks: from reached checkpoints let a long time pass in ONE elapse step (buffs and periodics run out
+    # while longer cooldowns are still running), then press every skill once, each on its own copy of that store:
+    # the states in which a rejection is most likely to meet leftovers of an earlier cast
+    from simaple.simulate.base import Checkpoint
+    out["advance_dispatches"] = 0
+    router = eng._router
+    for pl in picks[:: max(1, len(picks) // 4)]:
+        for T in (15_000.0, 45_000.0, 100_000.0):
+            try:
+                adv = pl.checkpoint.restore()
+                router({"name": "*", "method": "elapse", "payload": T}, adv)
+                ck_adv = Checkpoint.create(adv)
+            except Exception:
+                out["fork_errors"] += 1
+                continue
+            for prx in proxies:
+                if f"{prx._base._name}.use" not in prx._base.reducer_mappings:
+                    continue
+                store = ck_adv.restore()
+                n0 = len(sink)
+                try:
+                    prx({"name": prx._base._name, "method": "use", "payload": None}, store)
+                except Exception:
+                    out["fork_errors"] += 1
+                    continue
+                out["advance_dispatches"] += 1
+                for rec in sink[n0:]:
+                    if rec["rejected"]:
+                        out["rejections"] += 1
+                        k2 = f"{rec['cls']}.{rec.get('method')}"
+                        slot = out["by_class"].setdefault(k2, {"rejections": 0, "listened": 0})
+                        slot["rejections"] += 1
+                        for p in rec.get("problems", []):
+                            if len(out["failing"]) < 6:
+                                out["failing"].append({"component_class": rec["cls"], "component": rec["name"],
+                                                       "method": rec.get("method"), "kind": p["kind"], "job": job,
+                                                       "action": rec["action"], "detail": p, "forked_from_clock": pl.clock,
+                                                       "then_elapsed_ms": T, "plan": [command_text(x) for x in cmds]})
     # correspondence material for the L3 model: tagging and mapping of the real dispatchers
     bases = [complib.base_of(getattr(d, "_inner", d)) for d in eng._router._dispatchers]
     bases = [b for b in bases if b is not None]
@@ -171,7 +209,8 @@ def main(ck: Check):
     length = (25, 40) if quick else (60, 120)
     rng = ck.rng
     work = [(job, v, pi, ck.seed, rng.randint(*length)) for job in JOBS for v in variants for pi in range(plans_per)]
-    tot = {"dispatches": 0, "rejections": 0, "listened_rejections": 0, "fork_dispatches": 0, "fork_errors": 0, "synthetic": 0}
+    tot = {"dispatches": 0, "rejections": 0, "listened_rejections": 0, "fork_dispatches": 0, "fork_errors": 0, "synthetic": 0,
+           "advance_dispatches": 0}
     by_class: dict[str, dict] = {}
     samples, reqs, expect = [], [], []
     mstats: dict = {}
